@@ -224,6 +224,9 @@ func createOptimisedTransport(config *Configuration) *http.Transport {
 		TLSHandshakeTimeout: DefaultTLSHandshakeTimeout,
 		DisableCompression:  true,
 		ForceAttemptHTTP2:   true,
+		// response_timeout: a backend that accepted the request has this long to start answering
+		// (0 disables it); without it a silent backend holds the request for as long as the client waits
+		ResponseHeaderTimeout: config.GetResponseTimeout(),
 		DialContext: func(ctx context.Context, network, addr string) (net.Conn, error) {
 			dialer := &net.Dialer{
 				Timeout:   config.GetConnectionTimeout(),
